@@ -1127,6 +1127,42 @@ v_cjal:   mv a2, ra
           la a1, v_cjal
           sub a0, a0, a1
           ret
+    .globl v_br, v_div, v_divu, v_rem, v_remu, v_mulh, v_mulhu, v_mulhsu
+.macro BR op, bit
+          \op a2, a1, 1f
+          j 2f
+1:        ori a0, a0, \bit
+2:
+.endm
+v_br:     mv a2, a0
+          li a0, 0
+          BR beq, 1
+          BR bne, 2
+          BR blt, 4
+          BR bge, 8
+          BR bltu, 16
+          BR bgeu, 32
+          slt a3, a2, a1
+          slli a3, a3, 6
+          or a0, a0, a3
+          sltu a3, a2, a1
+          slli a3, a3, 7
+          or a0, a0, a3
+          ret
+v_div:    div a0, a0, a1
+          ret
+v_divu:   divu a0, a0, a1
+          ret
+v_rem:    rem a0, a0, a1
+          ret
+v_remu:   remu a0, a0, a1
+          ret
+v_mulh:   mulh a0, a0, a1
+          ret
+v_mulhu:  mulhu a0, a0, a1
+          ret
+v_mulhsu: mulhsu a0, a0, a1
+          ret
 v_shamt:  li a1, 0x80000001
           li a2, 33
           sll a3, a1, a2
@@ -1147,6 +1183,16 @@ _ASM_EXPECT = [
     ("v_misal", 0, (0x88112233 + 0x2233) & M32), ("v_signext", 0, (0xFFFFFFFF + 0xF0 + 0xFFFF8081 + 0x8081) & M32),
     ("v_sltiu", 5, 1), ("v_sltiu", 0xFFFFFFFF, 0), ("v_sltiu", 0xFFFFFFF0, 3), ("v_auipc", 0, 0x1004),
     ("v_cjal", 0, 4), ("v_shamt", 0, (2 + 0x40000000 + 0xC0000000) & M32),
+    # bit 0 beq, 1 bne, 2 blt, 3 bge, 4 bltu, 5 bgeu, 6 slt, 7 sltu of (a0, a1)
+    ("v_br", (5, 5), 0x29), ("v_br", (0, 0), 0x29), ("v_br", (0xFFFFFFFF, 1), 0x66), ("v_br", (1, 0xFFFFFFFF), 0x9A),
+    ("v_br", (0x80000000, 0x7FFFFFFF), 0x66), ("v_br", (0x7FFFFFFF, 0x80000000), 0x9A), ("v_br", (3, 4), 0xD6),
+    # division rounds towards zero, the remainder has the sign of the dividend
+    ("v_div", (7, 0xFFFFFFFE), 0xFFFFFFFD), ("v_rem", (7, 0xFFFFFFFE), 1), ("v_div", (0xFFFFFFF9, 2), 0xFFFFFFFD),
+    ("v_rem", (0xFFFFFFF9, 2), 0xFFFFFFFF), ("v_div", (0xFFFFFFF9, 0xFFFFFFFE), 3), ("v_rem", (0xFFFFFFF9, 0xFFFFFFFE), 0xFFFFFFFF),
+    ("v_divu", (0xFFFFFFF9, 2), 0x7FFFFFFC), ("v_remu", (0xFFFFFFF9, 2), 1),
+    ("v_mulh", (0xFFFFFFFF, 0xFFFFFFFF), 0), ("v_mulhu", (0xFFFFFFFF, 0xFFFFFFFF), 0xFFFFFFFE),
+    ("v_mulhsu", (0xFFFFFFFF, 0xFFFFFFFF), 0xFFFFFFFF), ("v_mulhsu", (1, 0xFFFFFFFF), 0), ("v_mulhsu", (0x7FFFFFFF, 0xFFFFFFFF), 0x7FFFFFFE),
+    ("v_mulh", (0x80000000, 0x80000000), 0x40000000), ("v_mulh", (0x80000000, 2), 0xFFFFFFFF),
 ]  # fmt: skip
 
 
@@ -1212,14 +1258,14 @@ def validate_semantics(n_generated=24, n_vectors=6, opt_levels=("-O1",), tmpdir=
             m = Machine()
             m.map(base, len(image) + 16, image)
             try:
-                got = m.call(symbols[fname], [a0])
+                got = m.call(symbols[fname], list(a0) if isinstance(a0, tuple) else [a0])
             except EmuError as e:
-                res["problems"].append("asm vector %s(%#x): %s" % (fname, a0, e))
+                res["problems"].append("asm vector %s(%r): %s" % (fname, a0, e))
                 continue
             res["executed"] |= m.executed
             res["calls"] += 1
             if got != expect:
-                res["problems"].append("asm vector %s(%#x) = %#x, the ISA manual says %#x" % (fname, a0, got, expect))
+                res["problems"].append("asm vector %s(%r) = %#x, the ISA manual says %#x" % (fname, a0, got, expect))
         for opt in opt_levels:
             obj = os.path.join(tmpdir, "corpus%s.o" % opt)
             _run(["clang"] + CLANG_FLAGS + [opt, "-fno-strict-aliasing", "-w", "-o", obj, cpath])
